@@ -92,6 +92,8 @@ var findings = []finding{
 		witness: []string{"SELECT COUNT(*) FROM information_schema.column_statistics"}},
 	{id: "C10-collate-system-variable", frames: []string{"expression.(*CollatedExpression).Eval"}, region: re(`@@[\w.]+\s+collate`),
 		witness: []string{"SELECT @@global.version COLLATE ascii_general_ci"}},
+	{id: "C10-system-enum-to-string", frames: []string{"expression.(*EnumToString).Eval"}, region: enumSysVarRegion(),
+		witness: []string{"SELECT CAST(@@session.tx_isolation AS CHAR)"}},
 	{id: "C10-show-variables-where", frames: []string{"rowexec.(*BaseBuilder).buildShowVariables"}, region: re(`\bshow\b.*\b(variables|status)\b.*\bwhere\b`),
 		witness: []string{"SHOW VARIABLES WHERE @b"}},
 	{id: "C10-interval-placeholder", frames: []string{"expression.(*Interval).Eval"}, region: re(`\binterval\b`),
@@ -128,8 +130,6 @@ var regressions = []finding{
 		witness: []string{"SELECT HEX(CONVERT('añb' USING latin1))"}},
 	{id: "C10-convert-using-no-encoder", frames: []string{"expression.(*ConvertUsing).Eval"},
 		witness: []string{"SELECT CONVERT('a' USING koi8r)"}},
-	{id: "C10-system-enum-to-string", frames: []string{"expression.(*EnumToString).Eval"},
-		witness: []string{"SELECT CAST(@@session.tx_isolation AS CHAR)"}},
 }
 
 // classify returns the finding whose signature matches a recovered panic, or nil.
